@@ -3,8 +3,8 @@
 (* and the theorems of the spec checked once, at start-up, over all enumerated lists. *)
 EXTENDS TypeList
 Atoms3    == <<"A", "B", "C">>
-Long59    == {5, 6, 9}
-Long58    == {5, 6, 7, 8, 9, 12}
+Long59    == {5, 6, 9, 17, 40}
+Long58    == {5, 6, 7, 8, 9, 12, 16, 17, 33, 64}
 TwoTmpl   == {"vector", "other"}
 ASSUME Laws
 =============================================================================
